@@ -672,6 +672,20 @@ where
             c.wr.bytes(&buf);
             c.wr.raw(",\"optenc\":");
             c.wr.bytes(&Some(a).encode());
+            // the remaining methods of the Encode trait: using_encoded (directly, through a reference and a Box), size_hint,
+            // and containers that encode their elements one after the other
+            c.wr.raw(",\"used\":[");
+            c.wr.bytes(&a.using_encoded(|b| b.to_vec()));
+            c.wr.raw(",");
+            c.wr.bytes(&(&a).using_encoded(|b| b.to_vec()));
+            c.wr.raw(",");
+            c.wr.bytes(&Box::new(a).using_encoded(|b| b.to_vec()));
+            c.wr.raw("],\"vecenc\":");
+            c.wr.bytes(&vec![a, a].encode());
+            c.wr.raw(",\"arrenc\":");
+            c.wr.bytes(&[a, a, a].encode());
+            c.wr.raw(",\"hint\":");
+            c.wr.raw(&format!("{}", a.size_hint()));
             c.wr.raw(",\"size\":");
             c.wr.raw(&format!("{}", a.encoded_size()));
             c.wr.raw(",\"maxlen\":");
